@@ -1,28 +1,34 @@
 ------------------------------ MODULE BloomMon ------------------------------
 (* VERDICT monitor for C07.                                                  *)
 (*   Init    type, cfg                                                       *)
-(*   Filter  rg, present (the chunk exposes a bloom filter), configured      *)
-(*   Check   rg, tok, ok, err : result of BloomFilter.Check(value) for a     *)
-(*           non-null value that was written to that row group's chunk       *)
-EXTENDS Integers, Sequences, TLC, Json
+(*   Filter  rg, present (the chunk exposes a bloom filter), configured,     *)
+(*           bits (the bitset as it lies in the file), std (1: split block   *)
+(*           algorithm, xxHash, uncompressed - what other readers probe)     *)
+(*   Check   rg, v (PLAIN bytes), ok, err : result of BloomFilter.Check for  *)
+(*           a non-null value that was written to that row group's chunk     *)
+(* Besides the library's own answer, the probe of a reader written from the  *)
+(* format document (Sbbf.tla, XXHash.tla) must find the value in the bits.   *)
+EXTENDS Sbbf, Json
 CONSTANT TraceFile
 Trace == ndJsonDeserialize(TraceFile)
-VARIABLES l, bad, cnt
-vars == <<l, bad, cnt>>
+VARIABLES l, bits, bad, cnt
+vars == <<l, bits, bad, cnt>>
 E == Trace[l]
 MaxBad == 300
 Flag(c) ==
   /\ bad' = (IF Len(bad) < MaxBad THEN Append(bad, <<E.t, E.i, c>>) ELSE bad)
   /\ cnt' = [cnt EXCEPT !.flagged = @ + 1]
-Init == l = 1 /\ bad = <<>> /\ cnt = [traces |-> 0, checks |-> 0, filters |-> 0, flagged |-> 0]
+Init == l = 1 /\ bits = <<>> /\ bad = <<>> /\ cnt = [traces |-> 0, checks |-> 0, filters |-> 0, probes |-> 0, flagged |-> 0]
 Step ==
   /\ l <= Len(Trace) /\ l' = l + 1
+  /\ bits' = (IF E.ev = "Init" THEN <<>> ELSE IF E.ev = "Filter" THEN (IF E.std = 1 THEN E.bits ELSE <<>>) ELSE bits)
   /\ CASE E.ev = "Init" -> bad' = bad /\ cnt' = [cnt EXCEPT !.traces = @ + 1]
        [] E.ev = "Filter" -> IF E.configured = 1 /\ E.present = 0 THEN Flag("no-filter")
                              ELSE bad' = bad /\ cnt' = [cnt EXCEPT !.filters = @ + 1]
        [] E.ev = "Check" -> IF E.err = 1 THEN Flag("check-error")
                             ELSE IF E.ok = 0 THEN Flag("absent")
-                            ELSE bad' = bad /\ cnt' = [cnt EXCEPT !.checks = @ + 1]
+                            ELSE IF Len(bits) > 0 /\ ~Probe(bits, XXH64(E.v)) THEN Flag("absent@format")
+                            ELSE bad' = bad /\ cnt' = [cnt EXCEPT !.checks = @ + 1, !.probes = @ + (IF Len(bits) > 0 THEN 1 ELSE 0)]
        [] E.ev = "WriteError" -> Flag("write-error")
 Spec == Init /\ [][Step]_vars
 Done == l = Len(Trace) + 1 =>
